@@ -1525,7 +1525,7 @@ Definition g_rp_days {DS : Type} (ds_upper : DS -> DS) (ds_lower : DS -> DS) (ds
             else
               (SRet (RRaise ValueError)))
         (fun weekdays =>
-          let rrule_kwargs := (mkKW (kw_freq rrule_kwargs) (kw_interval rrule_kwargs) (Some weekdays) (kw_bymonth rrule_kwargs) (kw_bymonthday rrule_kwargs) (kw_byweekno rrule_kwargs) (kw_byyearday rrule_kwargs) (kw_bysetpos rrule_kwargs) (kw_byhour rrule_kwargs) (kw_byminute rrule_kwargs) (kw_bysecond rrule_kwargs) (kw_wkst rrule_kwargs)) in
+          let rrule_kwargs := (set_byweekday rrule_kwargs (Some weekdays)) in
           (RDone rrule_kwargs))
         weekdays days
     | DayList day_l =>
@@ -1574,7 +1574,7 @@ Definition g_rp_days {DS : Type} (ds_upper : DS -> DS) (ds_lower : DS -> DS) (ds
             else
               (SRet (RRaise ValueError)))
         (fun weekdays =>
-          let rrule_kwargs := (mkKW (kw_freq rrule_kwargs) (kw_interval rrule_kwargs) (Some weekdays) (kw_bymonth rrule_kwargs) (kw_bymonthday rrule_kwargs) (kw_byweekno rrule_kwargs) (kw_byyearday rrule_kwargs) (kw_bysetpos rrule_kwargs) (kw_byhour rrule_kwargs) (kw_byminute rrule_kwargs) (kw_bysecond rrule_kwargs) (kw_wkst rrule_kwargs)) in
+          let rrule_kwargs := (set_byweekday rrule_kwargs (Some weekdays)) in
           (RDone rrule_kwargs))
         weekdays days
     end
@@ -1587,7 +1587,7 @@ Definition g_rp_lists {DS : Type} (ds_lower : DS -> DS) (daymap_has : DS -> bool
   let rrule_kwargs :=
     match day_of_month with
     | Some day_of_month =>
-      let rrule_kwargs := (mkKW (kw_freq rrule_kwargs) (kw_interval rrule_kwargs) (kw_byweekday rrule_kwargs) (kw_bymonth rrule_kwargs) (g_to_int_list (Some day_of_month)) (kw_byweekno rrule_kwargs) (kw_byyearday rrule_kwargs) (kw_bysetpos rrule_kwargs) (kw_byhour rrule_kwargs) (kw_byminute rrule_kwargs) (kw_bysecond rrule_kwargs) (kw_wkst rrule_kwargs)) in
+      let rrule_kwargs := (set_bymonthday rrule_kwargs (g_to_int_list (Some day_of_month))) in
       rrule_kwargs
     | None =>
       rrule_kwargs
@@ -1595,7 +1595,7 @@ Definition g_rp_lists {DS : Type} (ds_lower : DS -> DS) (daymap_has : DS -> bool
   let rrule_kwargs :=
     match month with
     | Some month =>
-      let rrule_kwargs := (mkKW (kw_freq rrule_kwargs) (kw_interval rrule_kwargs) (kw_byweekday rrule_kwargs) (g_to_int_list (Some month)) (kw_bymonthday rrule_kwargs) (kw_byweekno rrule_kwargs) (kw_byyearday rrule_kwargs) (kw_bysetpos rrule_kwargs) (kw_byhour rrule_kwargs) (kw_byminute rrule_kwargs) (kw_bysecond rrule_kwargs) (kw_wkst rrule_kwargs)) in
+      let rrule_kwargs := (set_bymonth rrule_kwargs (g_to_int_list (Some month))) in
       rrule_kwargs
     | None =>
       rrule_kwargs
@@ -1603,7 +1603,7 @@ Definition g_rp_lists {DS : Type} (ds_lower : DS -> DS) (daymap_has : DS -> bool
   let rrule_kwargs :=
     match bysetpos with
     | Some bysetpos =>
-      let rrule_kwargs := (mkKW (kw_freq rrule_kwargs) (kw_interval rrule_kwargs) (kw_byweekday rrule_kwargs) (kw_bymonth rrule_kwargs) (kw_bymonthday rrule_kwargs) (kw_byweekno rrule_kwargs) (kw_byyearday rrule_kwargs) (g_to_int_list (Some bysetpos)) (kw_byhour rrule_kwargs) (kw_byminute rrule_kwargs) (kw_bysecond rrule_kwargs) (kw_wkst rrule_kwargs)) in
+      let rrule_kwargs := (set_bysetpos rrule_kwargs (g_to_int_list (Some bysetpos))) in
       rrule_kwargs
     | None =>
       rrule_kwargs
@@ -1611,7 +1611,7 @@ Definition g_rp_lists {DS : Type} (ds_lower : DS -> DS) (daymap_has : DS -> bool
   let rrule_kwargs :=
     match byweekno with
     | Some byweekno =>
-      let rrule_kwargs := (mkKW (kw_freq rrule_kwargs) (kw_interval rrule_kwargs) (kw_byweekday rrule_kwargs) (kw_bymonth rrule_kwargs) (kw_bymonthday rrule_kwargs) (g_to_int_list (Some byweekno)) (kw_byyearday rrule_kwargs) (kw_bysetpos rrule_kwargs) (kw_byhour rrule_kwargs) (kw_byminute rrule_kwargs) (kw_bysecond rrule_kwargs) (kw_wkst rrule_kwargs)) in
+      let rrule_kwargs := (set_byweekno rrule_kwargs (g_to_int_list (Some byweekno))) in
       rrule_kwargs
     | None =>
       rrule_kwargs
@@ -1619,7 +1619,7 @@ Definition g_rp_lists {DS : Type} (ds_lower : DS -> DS) (daymap_has : DS -> bool
   let rrule_kwargs :=
     match byyearday with
     | Some byyearday =>
-      let rrule_kwargs := (mkKW (kw_freq rrule_kwargs) (kw_interval rrule_kwargs) (kw_byweekday rrule_kwargs) (kw_bymonth rrule_kwargs) (kw_bymonthday rrule_kwargs) (kw_byweekno rrule_kwargs) (g_to_int_list (Some byyearday)) (kw_bysetpos rrule_kwargs) (kw_byhour rrule_kwargs) (kw_byminute rrule_kwargs) (kw_bysecond rrule_kwargs) (kw_wkst rrule_kwargs)) in
+      let rrule_kwargs := (set_byyearday rrule_kwargs (g_to_int_list (Some byyearday))) in
       rrule_kwargs
     | None =>
       rrule_kwargs
@@ -1627,7 +1627,7 @@ Definition g_rp_lists {DS : Type} (ds_lower : DS -> DS) (daymap_has : DS -> bool
   let rrule_kwargs :=
     match byhour with
     | Some byhour =>
-      let rrule_kwargs := (mkKW (kw_freq rrule_kwargs) (kw_interval rrule_kwargs) (kw_byweekday rrule_kwargs) (kw_bymonth rrule_kwargs) (kw_bymonthday rrule_kwargs) (kw_byweekno rrule_kwargs) (kw_byyearday rrule_kwargs) (kw_bysetpos rrule_kwargs) (g_to_int_list (Some byhour)) (kw_byminute rrule_kwargs) (kw_bysecond rrule_kwargs) (kw_wkst rrule_kwargs)) in
+      let rrule_kwargs := (set_byhour rrule_kwargs (g_to_int_list (Some byhour))) in
       rrule_kwargs
     | None =>
       rrule_kwargs
@@ -1635,7 +1635,7 @@ Definition g_rp_lists {DS : Type} (ds_lower : DS -> DS) (daymap_has : DS -> bool
   let rrule_kwargs :=
     match byminute with
     | Some byminute =>
-      let rrule_kwargs := (mkKW (kw_freq rrule_kwargs) (kw_interval rrule_kwargs) (kw_byweekday rrule_kwargs) (kw_bymonth rrule_kwargs) (kw_bymonthday rrule_kwargs) (kw_byweekno rrule_kwargs) (kw_byyearday rrule_kwargs) (kw_bysetpos rrule_kwargs) (kw_byhour rrule_kwargs) (g_to_int_list (Some byminute)) (kw_bysecond rrule_kwargs) (kw_wkst rrule_kwargs)) in
+      let rrule_kwargs := (set_byminute rrule_kwargs (g_to_int_list (Some byminute))) in
       rrule_kwargs
     | None =>
       rrule_kwargs
@@ -1643,7 +1643,7 @@ Definition g_rp_lists {DS : Type} (ds_lower : DS -> DS) (daymap_has : DS -> bool
   let rrule_kwargs :=
     match bysecond with
     | Some bysecond =>
-      let rrule_kwargs := (mkKW (kw_freq rrule_kwargs) (kw_interval rrule_kwargs) (kw_byweekday rrule_kwargs) (kw_bymonth rrule_kwargs) (kw_bymonthday rrule_kwargs) (kw_byweekno rrule_kwargs) (kw_byyearday rrule_kwargs) (kw_bysetpos rrule_kwargs) (kw_byhour rrule_kwargs) (kw_byminute rrule_kwargs) (g_to_int_list (Some bysecond)) (kw_wkst rrule_kwargs)) in
+      let rrule_kwargs := (set_bysecond rrule_kwargs (g_to_int_list (Some bysecond))) in
       rrule_kwargs
     | None =>
       rrule_kwargs
@@ -1653,17 +1653,17 @@ Definition g_rp_lists {DS : Type} (ds_lower : DS -> DS) (daymap_has : DS -> bool
     | Some wkst =>
       match wkst with
       | WaObj wkst_w =>
-        let rrule_kwargs := (mkKW (kw_freq rrule_kwargs) (kw_interval rrule_kwargs) (kw_byweekday rrule_kwargs) (kw_bymonth rrule_kwargs) (kw_bymonthday rrule_kwargs) (kw_byweekno rrule_kwargs) (kw_byyearday rrule_kwargs) (kw_bysetpos rrule_kwargs) (kw_byhour rrule_kwargs) (kw_byminute rrule_kwargs) (kw_bysecond rrule_kwargs) (Some (WkObj wkst_w))) in
+        let rrule_kwargs := (set_wkst rrule_kwargs (Some (WkObj wkst_w))) in
         rrule_kwargs
       | WaStr wkst_s =>
         if (daymap_has (ds_lower wkst_s)) then
-          let rrule_kwargs := (mkKW (kw_freq rrule_kwargs) (kw_interval rrule_kwargs) (kw_byweekday rrule_kwargs) (kw_bymonth rrule_kwargs) (kw_bymonthday rrule_kwargs) (kw_byweekno rrule_kwargs) (kw_byyearday rrule_kwargs) (kw_bysetpos rrule_kwargs) (kw_byhour rrule_kwargs) (kw_byminute rrule_kwargs) (kw_bysecond rrule_kwargs) (Some (WkObj (daymap_get (ds_lower wkst_s))))) in
+          let rrule_kwargs := (set_wkst rrule_kwargs (Some (WkObj (daymap_get (ds_lower wkst_s))))) in
           rrule_kwargs
         else
           rrule_kwargs
       | WaInt wkst_z =>
         if ((0 <=? wkst_z) && (wkst_z <? 7)) then
-          let rrule_kwargs := (mkKW (kw_freq rrule_kwargs) (kw_interval rrule_kwargs) (kw_byweekday rrule_kwargs) (kw_bymonth rrule_kwargs) (kw_bymonthday rrule_kwargs) (kw_byweekno rrule_kwargs) (kw_byyearday rrule_kwargs) (kw_bysetpos rrule_kwargs) (kw_byhour rrule_kwargs) (kw_byminute rrule_kwargs) (kw_bysecond rrule_kwargs) (Some (WkInt wkst_z))) in
+          let rrule_kwargs := (set_wkst rrule_kwargs (Some (WkInt wkst_z))) in
           rrule_kwargs
         else
           rrule_kwargs
